@@ -159,9 +159,13 @@ def check_state(ctx, st, idx, pid='C06'):
     sig = f'{pid}|'
     try:
         pix = build_pix(r)
+        pre = (dict(pix.meta), dict(pix.visual))
         with warnings.catch_warnings():
             warnings.simplefilter('ignore')
             sky = pix.to_sky(wcs)
+            if (dict(pix.meta), dict(pix.visual)) != pre:
+                ctx.violation(sig + f'meta|{kindsig(r)}|source-changed', f'to_sky changed the meta/visual of the region it converts: {pre} -> {(dict(pix.meta), dict(pix.visual))}', case)
+                return True
             back = sky.to_pixel(wcs)
             sky2 = back.to_sky(wcs)
     except Exception as ex:  # noqa
@@ -190,6 +194,28 @@ def check_state(ctx, st, idx, pid='C06'):
     if why:
         ctx.violation(sig + f'roundtrip-sky|{kindsig(r)}', f'sky -> pixel -> sky -> pixel drifts: {why}', case)
         return True
+    # the same sky region described in other units (angle in rad / arcmin, sizes in arcsec / arcmin) has the same pixel image
+    if r['k'] not in ('compound', 'point', 'line', 'text', 'polygon'):
+        import astropy.units as u
+        try:
+            with warnings.catch_warnings():
+                warnings.simplefilter('ignore')
+                kw = {}
+                for pn in sky._params:
+                    v = getattr(sky, pn)
+                    if pn == 'angle':
+                        v = v.to([u.rad, u.arcmin, u.deg][idx % 3])
+                    elif pn != 'center':
+                        v = v.to([u.arcsec, u.arcmin, u.rad][(idx // 3) % 3])
+                    kw[pn] = v
+                other = type(sky)(**kw, meta=sky.meta.copy(), visual=sky.visual.copy()).to_pixel(wcs)
+            why = close_pix(other, back, 1e-6, 30.0)
+            if why:
+                ctx.violation(sig + f'units|{kindsig(r)}', f'the same sky region given in other units ({ {k: str(getattr(v, "unit", "")) for k, v in kw.items() if k != "center"} }) has another pixel image: {why}', case)
+                return True
+        except Exception as ex:  # noqa
+            ctx.violation(sig + f'units-raises|{kindsig(r)}|{type(ex).__name__}', f'sky region given in other units: to_pixel raised {ex!r}', case)
+            return True
     # sky -> pixel -> sky starting from a sky compound built directly, with its own explicitly empty meta
     if r['k'] == 'compound':
         import regions as R
@@ -236,6 +262,15 @@ def check_state(ctx, st, idx, pid='C06'):
     return False
 
 
+def _state_fn(rec, st, idx):
+    if st['sky'] == []:
+        return
+    rec.traces += 1
+    bad = check_state(rec, st, idx)
+    if not bad and idx % 331 == 1:
+        rec.sample({'wcs': st['w'], 'region': st['pix'], 'model_sky': st['sky']})
+
+
 def run(ctx):
     quick = ctx.tier == 'quick'
     res = tlc.run('MC_Wcs', cfg_text=CFG.format(rots='Dirs5', scales='S3', par='PBoth', regs='RegsC06'), dump=True, tag='c06')
@@ -243,17 +278,10 @@ def run(ctx):
     if res.violated:
         ctx.violation(f'C06|model|{res.violated}', f'Wcs.tla: invariant {res.violated} fails in the model', {'trace': res.trace[-1:]})
     else:
-        n = 0
-        for idx, st in enumerate(parse_dump(res.dump_path)):
-            if st['sky'] == []:
-                continue
-            if quick and idx % 2:
-                continue
-            n += 1
-            bad = check_state(ctx, st, idx)
-            if not bad and n % 331 == 1:
-                ctx.sample({'wcs': st['w'], 'region': st['pix'], 'model_sky': st['sky']})
-        ctx.traces += n
+        from .. import par
+        before = ctx.traces
+        par.pmap_dump(ctx, _state_fn, res.dump_path)
+        n = ctx.traces - before
         ctx.note('replayed_states', n)
     tlc.cleanup(res.workdir)
     random_walks(ctx)
